@@ -28,6 +28,7 @@ Inductive uop :=
 | UOp (o : op)                        (* an operation of InputDefs.v *)
 | UConnectHold (id : Z) (vo : bool)   (* rfbNewClient whose newClientHook returns RFB_CLIENT_ON_HOLD *)
 | URelease (id : Z)                   (* rfbStartOnHoldClient *)
+| URev (id : Z)                       (* rfbReverseConnection marks the record it just created: cl->reverseConnection *)
 | UUdpOn (hold : bool)                (* the application opens the UDP port *)
 | UUdp (d : list Z).                  (* one datagram arrives; then one rfbProcessEvents pass *)
 
@@ -82,6 +83,9 @@ Definition ustep (u : uworld) (o : uop) : uworld * list event :=
                       (s_owner s) (s_now s) in
       (mkU s' (u_port u) (u_udphold u) (filter (fun h => negb (h =? id)) (u_held u))
            (filter (fun e => negb (fst e =? id)) (u_park u)), [])
+  | URev id =>
+      let s := u_srv u in
+      (with_srv u (mkSrv (s_cfg s) (map_client (s_clients s) id (fun c => set_rev c true)) (s_owner s) (s_now s)), [])
   | UUdpOn h => ((if u_port u then u else mkU (u_srv u) true h (u_held u) (u_park u)), [])
   | UUdp d =>
       let ev0 := udp_events (s_cfg (u_srv u)) (u_port u) (u_udphold u) d in
@@ -195,7 +199,7 @@ Proof.
     by (intros e0 H0; exact (process_gate_tied ext_cut ext_gated (u_srv u) e0 Hn H0)).
   assert (Q : forall o', In e (snd (step ext_cut (u_srv u) o')) -> In e (snd (process ext_cut (u_srv u)))).
   { intros o' H. destruct o'; try (cbn in H; destruct H). exact H. }
-  destruct o as [o'|id vo|id|h|d]; cbn [ustep] in Hin.
+  destruct o as [o'|id vo|id|id|h|d]; cbn [ustep] in Hin.
   - assert (In e (snd (step ext_cut (u_srv u) o'))).
     { destruct o'; try (destruct (step ext_cut (u_srv u) _) as [s' ev] eqn:E; cbn [snd] in *; exact Hin).
       - destruct (is_held u id); [destruct Hin|].
@@ -204,6 +208,7 @@ Proof.
         destruct (step ext_cut (u_srv u) (OEof id)) as [s' ev]; exact Hin. }
     destruct (P e (Q o' H)) as [A|B]; [left; exact A|right; left; exact B].
   - cbn in Hin. destruct Hin.
+  - destruct Hin.
   - destruct Hin.
   - destruct Hin.
   - destruct (process ext_cut (u_srv u)) as [s' ev1] eqn:E. cbn [snd] in Hin.
@@ -258,6 +263,26 @@ Proof.
   - unfold parked_for. induction (u_park u) as [|[i f] r IH]; cbn; [reflexivity|].
     destruct (i =? id) eqn:E; cbn; [exact IH|]. rewrite E. exact IH.
 Qed.
+
+(* ---- reverse connections (rfbReverseConnection): no sharing test, no authentication ---- *)
+Lemma reverse_no_sharing_test : forall cfg o c sh b,
+  c_rev c = true ->
+  apply_init cfg o c sh b = applied_same (set_state c SNormal) o.
+Proof. intros cfg o c sh b H. unfold apply_init. rewrite H. reflexivity. Qed.
+
+Lemma reverse_no_authentication : forall cfg c, c_rev c = true ->
+  needs_auth cfg c = false /\ primary_sec cfg c = c06_rfbSecTypeNone.
+Proof. intros cfg c H. unfold primary_sec, needs_auth. rewrite H, andb_false_r. split; reflexivity. Qed.
+
+Lemma forward_sharing_test : forall cfg o c sh b,
+  c_rev c = false ->
+  apply_init cfg o c sh b =
+    (let c1 := set_state c SNormal in
+     if g_never cfg || (negb (g_always cfg) && (sh =? 0)) then
+       if g_dontdisc cfg then (if b then applied_close c1 o else applied_same c1 o)
+       else mkApplied c1 o [] true
+     else applied_same c1 o).
+Proof. intros cfg o c sh b H. unfold apply_init. rewrite H. reflexivity. Qed.
 
 End World.
 
